@@ -167,6 +167,22 @@ pub fn main(args: &Args) -> i32 {
         p = o.step(p, "strings", "after deletion freed 4 entries", 65535, |p| p.insert_rows(Insert::into("S").rows(srows(300000, 300004))));
         p = o.step(p, "strings", "after deletion, one more", 65536, |p| p.insert_rows(Insert::into("S").rows(srows(400000, 400001))));
         let _ = o.step(p, "strings", "update of the only user of a string at the limit", 65535, |p| p.update_rows(msi::Update::table("S").set("V", Value::Str("replacement".into())).with(Expr::col("K").eq(Expr::integer(300000)))));
+        // a free entry BEFORE a string that the same statement re-uses: the statement needs one entry for its
+        // one new string and exactly one is free (a first-fit allocator that duplicates the re-used string runs out)
+        let mut p = fresh();
+        p.create_table("S", scols()).unwrap();
+        p.insert_rows(Insert::into("S").rows(srows(0, 65535 - used))).unwrap();
+        let _ = p.delete_rows(Delete::from("S").with(Expr::col("K").eq(Expr::integer(10))));
+        p = o.step(p, "strings", "one free entry before a re-used string, plus one new string", 65535, |p| {
+            p.insert_rows(Insert::into("S").rows(vec![vec![Value::Int(500000), Value::Str("s060000".into())], vec![Value::Int(500001), Value::Str("fresh one".into())]]))
+        });
+        p = o.step(p, "strings", "re-used string plus one new string, no free entry", 65536, |p| {
+            p.insert_rows(Insert::into("S").rows(vec![vec![Value::Int(600000), Value::Str("s060001".into())], vec![Value::Int(600001), Value::Str("fresh two".into())]]))
+        });
+        let _ = p.delete_rows(Delete::from("S").with(Expr::col("K").eq(Expr::integer(20))));
+        let _ = o.step(p, "strings", "update of two rows to a re-used and then free entry", 65535, |p| {
+            p.update_rows(msi::Update::table("S").set("V", Value::Str("s060002".into())).with(Expr::col("K").eq(Expr::integer(500001))))
+        });
     }
     let mut f = std::io::BufWriter::new(std::fs::File::create(args.get("trace").expect("--trace")).expect("trace"));
     for l in &o.lines {
